@@ -163,3 +163,32 @@ pub proof fn lemma_regular_document_roundtrip(sm: &SourceMap, raw: RawSourceMap,
         }
     }
 }
+
+// ---- C14, last sentence: "the answers are unchanged by serialising and decoding the map again" ----
+/// the function maps of a Hermes map are what decode_hermes reads from the raw metadata the map keeps (true of every map decode_hermes returns: its contract)
+pub open spec fn fmaps_from_raw(h: &SourceMapHermes) -> bool {
+    h.raw_facebook_sources matches Some(x) && h.function_maps@.len() == x@.len() && forall|i: int| 0 <= i < x@.len() ==> fm_post(x@[i], #[trigger] h.function_maps@[i])
+}
+/// no metadata entry leaves the u32 range (where the reader's casts are unspecified and fm_post says nothing)
+pub open spec fn metadata_fits(x: Seq<Option<Vec<FacebookScopeMapping>>>) -> bool {
+    forall|i: int| 0 <= i < x.len() ==> (#[trigger] x[i] matches Some(l) ==> (l@.len() > 0 ==> !(hermes_fmap_decode(string_bytes(l@[0].mappings)) is Unfit)))
+}
+//@ lemma_hermes_answers_survive_reencoding [C14 C01]
+/// two Hermes maps whose function maps were read from the same raw metadata give the same scope answer for every token with the same source id and original position:
+/// with decode_hermes's contract (fmaps_from_raw for the map read back, metadata kept) and SourceMapHermes::as_raw_sourcemap's (metadata written verbatim), this is the last sentence of C14
+pub proof fn lemma_hermes_answers_survive_reencoding(h1: &SourceMapHermes, h2: &SourceMapHermes, t1: Token, t2: Token, res: Option<&str>)
+    requires
+        fmaps_from_raw(h1), fmaps_from_raw(h2), h1.raw_facebook_sources == h2.raw_facebook_sources, metadata_fits(h1.raw_facebook_sources->0@),
+        t1.raw.src_id == t2.raw.src_id, t1.raw.src_line == t2.raw.src_line, t1.raw.src_col == t2.raw.src_col, t1.offset == t2.offset,
+    ensures token_scope_post(h1, t1, res) <==> token_scope_post(h2, t2, res)
+{
+    let x = h1.raw_facebook_sources->0@;
+    let s = t1.raw.src_id as int;
+    assert(scope_query(t1) == scope_query(t2));
+    if s < x.len() {
+        assert(fm_post(x[s], h1.function_maps@[s]) && fm_post(x[s], h2.function_maps@[s]));
+        if let (Some(f1), Some(f2)) = (h1.function_maps@[s], h2.function_maps@[s]) {
+            assert(f1.mappings@ == f2.mappings@ && f1.names@ == f2.names@);
+        }
+    }
+}
